@@ -2,25 +2,37 @@
 #define MAX_EPOCH (UINT64_MAX - 8)      /* assumption: the 64-bit global epoch does not wrap around */
 #define MAX_CNT 1000000u                /* assumption: fewer than 10^6 simultaneously live guards / region_guards per thread */
 
-/* ---------------- environment (INT): what other threads may do between two atomic accesses of this thread ---------------- */
-_Bool env_ge_on, env_ent_on, env_orph_on; epoch_t env_ge_cap; chain_t env_added, env_removed;
-static epoch_t mk_dist(unsigned* rem); static unsigned rem_add(unsigned r, unsigned k);
+/* ---------------- environment (INT): what other threads may do between two atomic accesses of this thread ----------------
+ * Environment steps are applied exactly where they can be observed: the global epoch is advanced right before it is loaded / CASed
+ * (mon_load, xv_env for the real update_global_epoch, the stubs), the records of other threads are rewritten right before the scan
+ * reads them (mon_load), the orphan lists right before add/adopt (ol_add, ol_adopt).  Steps compose, so this loses nothing. */
+_Bool env_ge_on, env_ge_generic, env_ent_on, env_orph_on; epoch_t env_ge_cap; chain_t env_added, env_removed;
+static epoch_t mk_dist(unsigned* rem); static unsigned rem_add(unsigned r, unsigned k); static chain_t all_nodes(void);
 #ifdef XV_INT
-static void env_td(void) {
-  if (env_ge_on) {            /* the global epoch only grows; while this thread is in a critical region at epoch e it cannot pass e+1 (env_ge_cap) */
-    unsigned rd; epoch_t dl = mk_dist(&rd); if (global_epoch <= env_ge_cap && dl <= env_ge_cap - global_epoch) { global_epoch += dl; ge_rem = rem_add(ge_rem, rd); }
-  }
-  if (env_ent_on) {           /* records of other threads: anything */
-    for (unsigned i = 0; i < XV_E; i++) { oth[i].is_in_critical_region = nondet_bool(); oth[i].local_epoch = nondet_u64(); }
-  }
-  if (env_orph_on) {          /* other threads abandon nodes retired at a local epoch t <= global into slot t % number_epochs, or adopt a whole slot */
-    unsigned s = nondet_uint(); XV_ASSUME(s < NE);
-    if (nondet_bool()) { env_removed |= orphans[s].set; orphans[s].set = 0; }
-    chain_t add = nondet_u32(); add &= ~(all_nodes() | env_removed | env_added);
-    if ((add & g_bit) && !(g_rt == s && g_tag <= global_epoch)) add &= ~g_bit;
-    orphans[s].set |= add; env_added |= add;
-  }
+static void env_ge_step(void) {       /* the global epoch only grows; while this thread is in a critical region that loaded e it cannot pass e+1 (env_ge_cap) */
+  if (!env_ge_on) return;
+  unsigned rd; epoch_t dl = mk_dist(&rd); if (global_epoch <= env_ge_cap && dl <= env_ge_cap - global_epoch) { global_epoch += dl; ge_rem = rem_add(ge_rem, rd); }
 }
+static _Bool env_ent_step(void* a) {  /* records of other threads: anything, whenever they are read */
+  if (!env_ent_on) return 0;
+  for (unsigned i = 0; i < XV_E; i++) {
+    if (a == (void*)&oth[i].is_in_critical_region) { oth[i].is_in_critical_region = nondet_bool(); return 1; }
+    if (a == (void*)&oth[i].local_epoch) { oth[i].local_epoch = nondet_u64(); return 1; }
+  }
+  return 0;
+}
+static void env_orph_step(void) {     /* other threads abandon nodes retired at a local epoch t <= global into slot t % number_epochs, or adopt a whole slot */
+  if (!env_orph_on) return;
+  unsigned s = nondet_uint(); XV_ASSUME(s < NE);
+  if (nondet_bool()) { env_removed |= orphans[s].set; orphans[s].set = 0; }
+  chain_t add = nondet_u32(); add &= ~(all_nodes() | env_removed | env_added);
+  if ((add & g_bit) && !(g_rt == s && g_tag <= global_epoch)) add &= ~g_bit;
+  orphans[s].set |= add; env_added |= add;
+}
+static void env_td(void) { if (env_ge_generic) env_ge_step(); }
+#else
+#define env_ge_step() ((void)0)
+#define env_orph_step() ((void)0)
 #endif
 
 /* ---------------- state, invariants ---------------- */
@@ -32,7 +44,7 @@ static void env_td(void) {
  * not found sets mod_unknown, which ebr.conserve reports.
  * g_rt = rem(g_tag); le_rem = rem(own local epoch) in the pre-state; ge_rem = rem(global_epoch), maintained by environment and CAS monitor;
  * ge_acq_rem / ge_first_rem = ge_rem at the first acquire load / first load of the global epoch (declared in harness.c) */
-unsigned g_kind;
+unsigned g_kind; epoch_t mid_epoch; unsigned mid_rem; _Bool want_mid;
 static epoch_t mk_dist(unsigned* rem) {      /* an arbitrary distance with its ghost remainder */
   epoch_t d = nondet_u64(); unsigned r = nondet_uint(); XV_ASSUME(r < NE); if (d < 16) XV_ASSUME(r == (unsigned)d % (unsigned)NE); *rem = r; return d; }
 static unsigned rem_add(unsigned r, unsigned k) { return (r + k) % (unsigned)NE; }
@@ -51,7 +63,8 @@ epoch_t xv_mod_ne(epoch_t x) {
   epoch_t out = 0;
   if (ge_acq_seen) set_anchor(3, ge_acq_val, ge_acq_rem);
   if (n_ge_load) set_anchor(4, ge_first_val, ge_first_rem);
-  if (try_anchor(0, x, &out) || try_anchor(1, x, &out) || try_anchor(2, x, &out) || try_anchor(3, x, &out) || try_anchor(4, x, &out)) return out;
+  /* most specific anchor first: the epoch passed to the function under contract (2), the value loaded from the global epoch (4, 3), then the pre-state epochs */
+  if (try_anchor(2, x, &out) || try_anchor(4, x, &out) || try_anchor(3, x, &out) || try_anchor(0, x, &out) || try_anchor(1, x, &out)) return out;
   mod_unknown = 1; return x % NE;
 }
 /* the facts about % that the ghost remainders rely on */
@@ -63,14 +76,15 @@ void h_mod_lemma(void) {
   XV_OBL("ebr.model.mod_lemma", NE * 2 >= 3 && x % NE < NE);
   XV_CANARY("mod_lemma.reached");
 }
+unsigned n_do_enter; _Bool do_enter_pre_ok; uint64_t do_enter_clk;
 struct snap { chain_t rl[XV_MAXNE], ol[XV_MAXNE], del; struct tcb oth[XV_E]; epoch_t ge; struct td td; _Bool has_cb; struct tcb cb; struct tcb* head; } pre;
 static unsigned pos_of(struct tcb* p) { for (unsigned i = 0; i < XV_E; i++) if (i < n_ent && p == seq(i)) return i; return n_ent; }
 static void reset_monitors(void) {
   xv_clock = 1; mod_unknown = 0; anchors[0].on = anchors[1].on = anchors[2].on = anchors[3].on = anchors[4].on = 0; mon_src = 0; in_scan = scan_done = scan_ret = 0; n_scan = n_scan_reset = 0; trk_flag_seen = trk_ep_seen = 0; last_scan_load_clk = 0;
   n_flag_true = n_flag_false = 0; n_sc_fence = n_acq_fence = 0; sc_fence_clk = acq_fence_clk = 0; n_ge_load = 0; ge_acq_seen = 0; n_le_store = 0; n_other_store = n_ge_store = 0;
   n_cas = 0; cas_ok = 0; adv_bad_delta = adv_no_scan = adv_trk_unchecked = adv_bad_sync = 0; expect_scan = 0;
-  n_delete_calls = n_steal = n_ol_add = n_ol_adopt = n_push = 0; del_twice = stub_pre_violated = 0; deleted_in_call = 0; last_delete_clk = 0;
-  n_acquire = n_release = 0; rel_entry = 0; env_added = env_removed = 0; env_ge_on = env_ent_on = env_orph_on = 0;
+  n_delete_calls = n_steal = n_ol_add = n_ol_adopt = n_push = 0; del_twice = stub_pre_violated = 0; deleted_in_call = 0; in_flight = 0; last_delete_clk = 0;
+  n_acquire = n_release = 0; rel_entry = 0; env_added = env_removed = 0; env_ge_on = env_ge_generic = env_ent_on = env_orph_on = 0; n_do_enter = 0; do_enter_pre_ok = 1;
 }
 static void havoc_world(_Bool with_cb) {
   n_ent = nondet_uint(); XV_ASSUME(n_ent >= 1 && n_ent <= XV_E);
@@ -90,8 +104,10 @@ static void havoc_world(_Bool with_cb) {
   ltd.local_epoch_idx = nondet_u64();
   ltd.control_block = with_cb ? &own_cb : 0; acq_entry = &own_cb;
   /* epochs: own local epoch le0 <= global epoch = le0 + dg; the tag of the tracked node is built relative to them (g_kind), so that every remainder is known by construction */
-  epoch_t le0 = mk_dist(&le_rem); XV_ASSUME(le0 <= MAX_EPOCH); unsigned rdg; epoch_t dg = mk_dist(&rdg); XV_ASSUME(dg <= MAX_EPOCH - le0);
-  global_epoch = le0 + dg; ge_rem = rem_add(le_rem, rdg);
+  epoch_t le0 = mk_dist(&le_rem); XV_ASSUME(le0 <= MAX_EPOCH);
+  unsigned rd1 = 0, rd2; epoch_t d1 = 0, d2 = mk_dist(&rd2); if (want_mid) d1 = mk_dist(&rd1); XV_ASSUME(d1 <= MAX_EPOCH - le0 && d2 <= MAX_EPOCH - le0 - d1);
+  mid_epoch = le0 + d1; mid_rem = rem_add(le_rem, rd1);               /* le0 <= mid_epoch <= global_epoch: the new epoch of h_update_local_epoch */
+  global_epoch = mid_epoch + d2; ge_rem = rem_add(mid_rem, rd2);
   if (with_cb) own_cb.local_epoch = le0;
   g_kind = nondet_uint(); XV_ASSUME(g_kind <= 3 && g_kind != 2);
   if (g_kind == 0) { unsigned kk = nondet_uint(); XV_ASSUME(kk < NE && kk <= le0); g_tag = le0 - kk; g_rt = rem_add(le_rem, (unsigned)NE - kk); }          /* le0 - k, k < number_epochs */
@@ -161,7 +177,7 @@ static void stub_update_local_epoch(struct td* self, epoch_t new_epoch) {
   struct tcb* cb = self->control_block; epoch_t old = cb->local_epoch; unsigned rn = 0;
   if (ge_acq_seen && new_epoch == ge_acq_val) rn = ge_acq_rem; else if (ge_acq_seen && new_epoch == ge_acq_val + 1) rn = rem_add(ge_acq_rem, 1); else stub_pre_violated = 1;
   if (!(new_epoch > old)) stub_pre_violated = 1;                     /* requires: a newer epoch */
-  XV_ENV(); cb->local_epoch = new_epoch; n_le_store++; le_store_val = new_epoch; xv_clock++;
+  cb->local_epoch = new_epoch; n_le_store++; le_store_val = new_epoch; xv_clock++;
   for (unsigned s = 0; s < NE; s++) if (ule_frees(s, rn, new_epoch - old)) { struct rnodes n = rl_steal(&self->retire_lists[s]); delete_objects(&n.first); }
   self->local_epoch_idx = rn;
   scan_reset_wrap(&self->scan_strategy);
@@ -169,10 +185,10 @@ static void stub_update_local_epoch(struct td* self, epoch_t new_epoch) {
 static epoch_t stub_update_global_epoch(struct td* self, epoch_t curr_epoch, epoch_t new_epoch) {
   struct tcb* cb = self->control_block;
   if (!(new_epoch == curr_epoch + 1 && cb->is_in_critical_region && cb->local_epoch == curr_epoch)) stub_pre_violated = 1;   /* requires (call site of do_enter_critical) */
-  XV_ENV(); xv_clock++; mon_load(&global_epoch, global_epoch, mo_relaxed);
+  xv_clock++; mon_load(&global_epoch, global_epoch, mo_relaxed);       /* (mon_load applies the environment step) */
   if (global_epoch == curr_epoch) {
     xv_clock++; mon_fence(mo_acquire);
-    XV_ENV(); _Bool ok = global_epoch == curr_epoch; xv_clock++; mon_cas(&global_epoch, curr_epoch, new_epoch, ok, mo_release);
+    env_ge_step(); _Bool ok = global_epoch == curr_epoch; xv_clock++; mon_cas(&global_epoch, curr_epoch, new_epoch, ok, mo_release);
     if (ok) { global_epoch = new_epoch; chain_t c = ol_adopt(&orphans[ge_rem]); delete_objects(&c); }    /* ge_rem is now new_epoch % NE */
   }
   return new_epoch;
@@ -186,7 +202,7 @@ static void take_snap(void) {
 static chain_t pre_all(void) { chain_t u = pre.del; for (unsigned i = 0; i < XV_MAXNE; i++) u |= pre.rl[i] | pre.ol[i]; return u; }
 /* C02: the multiset of retired nodes is conserved: (lists now) + (deleted now) = (lists before) + (deleted before), up to what the environment added/took;
  * no node in two places, none deleted twice, stub preconditions respected */
-static _Bool conserved(void) { return !del_twice && !mod_unknown && disjoint_all() && (all_nodes() | env_removed) == (pre_all() | env_added) && (all_nodes() & env_removed) == 0; }
+static _Bool conserved(void) { return !del_twice && !mod_unknown && in_flight == 0 && disjoint_all() && (all_nodes() | env_removed) == (pre_all() | env_added) && (all_nodes() & env_removed) == 0; }
 static _Bool others_unchanged(void) {
   for (unsigned i = 0; i < XV_E; i++) {
     if (oth[i].is_in_critical_region != pre.oth[i].is_in_critical_region || oth[i].local_epoch != pre.oth[i].local_epoch || oth[i].state != pre.oth[i].state || oth[i].next_entry != pre.oth[i].next_entry) return 0; }
@@ -211,55 +227,97 @@ void h_set_flag(void) {
   XV_CANARY("set_flag.done");
 }
 
-/* ---------------- enter_critical (with the real enter_region, acquire_control_block, do_enter_critical, scan, update_*, reclaim_orphans) ---------------- */
-void h_enter_critical(void) {
-  _Bool with_cb = nondet_bool(); havoc_world(with_cb);
-  if (!with_cb) { acq_entry->is_in_critical_region = 0; acq_entry->state = ST_FREE; }   /* a record is only ever released with the flag cleared (h_dtor) */
-  XV_ASSUME(inv_td_pre()); XV_ASSUME(ltd.nested_critical_entries < MAX_CNT && ltd.region_entries < MAX_CNT);
-  take_snap(); expect_scan = 1;
-  unsigned n0 = ltd.nested_critical_entries, r0 = ltd.region_entries; _Bool f0 = with_cb && pre.cb.is_in_critical_region; epoch_t le0 = with_cb ? pre.cb.local_epoch : 0;
+/* ---------------- do_enter_critical (real scan strategy; update_local_epoch / update_global_epoch by contract or real) ---------------- */
+/* the states in which enter_critical calls do_enter_critical (checked at that call site by h_enter_critical) */
+static _Bool pre_do_enter(unsigned lrem) {
+  struct tcb* cb = ltd.control_block; if (cb == 0) return 0;
+  _Bool f = cb->is_in_critical_region; unsigned r = ltd.region_entries;
+  if (!disjoint_all() || !inv_tag_orphan() || cb->state != ST_ACTIVE || cb->local_epoch > global_epoch || ltd.local_epoch_idx != lrem || !inv_tag_local(cb->local_epoch)) return 0;
+#if XV_SCAN == 1
+  if (ltd.scan_strategy.thread_iterator == 0) return 0;
+#endif
+  if (ltd.nested_critical_entries != 1 || r > MAX_CNT) return 0;
+  if (XV_REGION_EXT == RE_none) return !f;
+  if (XV_REGION_EXT == RE_eager) return f && r >= 1;
+  return r >= 1;
+}
+void h_do_enter(void) {
+  havoc_world(1); XV_ASSUME(pre_do_enter(le_rem) && wlog_kind());
+  take_snap(); expect_scan = 1; struct tcb* cb = ltd.control_block;
+  _Bool f0 = pre.cb.is_in_critical_region; epoch_t le0 = pre.cb.local_epoch;
 #ifdef XV_INT
   env_ge_on = 1; env_ent_on = 1; env_ge_cap = MAX_EPOCH;
 #endif
-  td_enter_critical(&ltd);
+  td_do_enter_critical(&ltd);
   env_ge_on = env_ent_on = 0;
-  struct tcb* cb = ltd.control_block;
-  XV_OBL("ebr.nesting.balanced", cb != 0 && ltd.nested_critical_entries == n0 + 1 && ltd.region_entries == (XV_REGION_EXT == RE_none ? r0 : r0 + 1));
+  XV_OBL("ebr.nesting.balanced", ltd.control_block == cb && ltd.nested_critical_entries == 1 && ltd.region_entries == pre.td.region_entries);
   XV_OBL("ebr.nesting.balanced", cb->is_in_critical_region && n_flag_false == 0 && n_flag_true == (f0 ? 0u : 1u));
   if (!f0) {
     XV_OBL("ebr.enter.flag_then_fence_then_epoch", n_sc_fence >= 1 && flag_true_clk < sc_fence_clk && ge_acq_seen && sc_fence_clk < ge_acq_clk);
-    XV_CANARY("enter.flag_newly_set");
-  } else XV_CANARY("enter.flag_was_set");
-  if (n0 == 0) {
-    XV_OBL("ebr.enter.flag_then_fence_then_epoch", ge_acq_seen && (cb->local_epoch == ge_acq_val || cb->local_epoch == ge_acq_val + 1) && cb->local_epoch <= global_epoch);
-    if (cb->local_epoch == ge_acq_val + 1) { XV_OBL("ebr.enter.flag_then_fence_then_epoch", n_cas == 1 || n_ge_load >= 2); XV_CANARY("enter.advanced"); }
-#ifndef XV_INT
-    XV_OBL("ebr.enter.flag_then_fence_then_epoch", cb->local_epoch == global_epoch);
+#if XV_REGION_EXT != 1
+    XV_CANARY("do_enter.flag_newly_set");
 #endif
-  } else {
-    XV_OBL("ebr.nesting.balanced", n_ge_load == 0 && n_le_store == 0 && n_cas == 0 && n_scan == 0 && lists_unchanged() && cb->local_epoch == le0);
-    XV_CANARY("enter.nested");
   }
-  unsigned lrem1 = n0 != 0 ? le_rem : (cb->local_epoch == ge_acq_val ? ge_acq_rem : rem_add(ge_acq_rem, 1));   /* remainder of the new local epoch */
+#if XV_REGION_EXT != 0
+  if (f0) XV_CANARY("do_enter.flag_was_set");
+#endif
+  XV_OBL("ebr.enter.flag_then_fence_then_epoch", ge_acq_seen && ge_acq_clk == ge_first_clk && (cb->local_epoch == ge_acq_val || cb->local_epoch == ge_acq_val + 1) && cb->local_epoch <= global_epoch);
+  if (cb->local_epoch == ge_acq_val + 1) { XV_OBL("ebr.enter.flag_then_fence_then_epoch", n_scan == 1 && scan_ret && le0 == ge_acq_val); XV_CANARY("do_enter.advanced"); }
+#ifndef XV_INT
+  XV_OBL("ebr.enter.flag_then_fence_then_epoch", cb->local_epoch == global_epoch);
+#endif
+  unsigned lrem1 = cb->local_epoch == ge_acq_val ? ge_acq_rem : rem_add(ge_acq_rem, 1);   /* remainder of the new local epoch */
   /* reclaim side */
   XV_OBL("ebr.advance.after_scan", n_cas <= 1 && !adv_bad_delta && !adv_no_scan && !adv_trk_unchecked && (n_cas == 0 || cas_exp == ge_acq_val) && n_ge_store == 0);
+  XV_OBL("ebr.advance.after_scan", n_scan <= 1 && (n_scan == 0 || (scan_arg == le0 && le0 == ge_acq_val)));     /* a scan validates entries against the (unchanged) local epoch */
   XV_OBL("ebr.advance.sync", !adv_bad_sync);
   XV_OBL("ebr.free.three_epochs", !G_DELETED_NOW || cb->local_epoch - g_tag >= XV_GRACE);
   XV_OBL("ebr.free.three_epochs", ltd.local_epoch_idx == lrem1 && inv_tag_local(cb->local_epoch));
   XV_OBL("ebr.orphans.slot", inv_tag_orphan());
-  XV_OBL("ebr.conserve", conserved() && !stub_pre_violated);
+  XV_OBL("ebr.conserve", conserved() && !stub_pre_violated && n_acquire == 0 && n_release == 0);
 #ifndef XV_INT
   XV_OBL("ebr.conserve", others_unchanged() && n_other_store == 0);
 #endif
-  XV_OBL("ebr.adopt.reinit", n_acquire == (with_cb ? 0u : 1u) && n_release == 0);
 #if XV_SCAN == 1
   XV_OBL("ebr.scan.prefix_valid", ltd.scan_strategy.thread_iterator != 0 && (pos_of(trk) < pos_of(ltd.scan_strategy.thread_iterator) ? trk_ok(cb->local_epoch) : 1));
-  XV_OBL("ebr.scan.prefix_valid", cb->local_epoch != (with_cb ? le0 : ge_first_val) ? scan_at_begin() : 1);   /* reset() whenever the local epoch changed */
+  XV_OBL("ebr.scan.prefix_valid", cb->local_epoch != le0 ? scan_at_begin() : 1);   /* reset() whenever the local epoch changed */
 #endif
   XV_OBL("ebr.enter.invariant", inv_td_r(lrem1));
-  if (n_cas == 1 && cas_ok) XV_CANARY("enter.cas_ok");
-  if (G_DELETED_NOW) XV_CANARY("enter.freed_tracked");
-  if (n_scan && !scan_ret) XV_CANARY("enter.scan_failed");
+  if (n_cas == 1 && cas_ok) XV_CANARY("do_enter.cas_ok");
+  if (G_DELETED_NOW) XV_CANARY("do_enter.freed_tracked");
+  if (n_scan && !scan_ret) XV_CANARY("do_enter.scan_failed");
+  if (n_scan == 0 && cb->local_epoch == le0) XV_CANARY("do_enter.no_scan_this_time");
+#ifdef XV_INT
+  if (n_cas == 1 && !cas_ok) XV_CANARY("do_enter.cas_lost");
+  if (n_scan == 1 && scan_ret && n_cas == 0) XV_CANARY("do_enter.epoch_already_advanced");
+#endif
+}
+
+/* ---------------- enter_critical (real enter_region, ensure_has_control_block, acquire_control_block, set_critical_region_flag; do_enter_critical by contract) ---------------- */
+static void stub_do_enter_critical(struct td* self) {
+  n_do_enter++; do_enter_clk = ++xv_clock;
+  if (!pre_do_enter(n_acquire ? ge_first_rem : le_rem)) do_enter_pre_ok = 0;       /* requires (assumed by h_do_enter) */
+  /* ensures (h_do_enter): in a critical region, counters untouched; epochs and lists as the contract allows - not used at this level */
+  self->control_block->is_in_critical_region = 1; self->critical_entries_since_update = nondet_uint();
+}
+void h_enter_critical(void) {
+  _Bool with_cb = nondet_bool(); havoc_world(with_cb);
+  if (!with_cb) { acq_entry->is_in_critical_region = 0; acq_entry->state = ST_FREE; }   /* a record is only ever released with the flag cleared (h_dtor) */
+  XV_ASSUME(inv_td_pre()); XV_ASSUME(ltd.nested_critical_entries < MAX_CNT && ltd.region_entries < MAX_CNT);
+  take_snap();
+  unsigned n0 = ltd.nested_critical_entries, r0 = ltd.region_entries; _Bool f0 = with_cb && pre.cb.is_in_critical_region;
+  td_enter_critical(&ltd);
+  struct tcb* cb = ltd.control_block;
+  XV_OBL("ebr.nesting.balanced", cb != 0 && ltd.nested_critical_entries == n0 + 1 && ltd.region_entries == (XV_REGION_EXT == RE_none ? r0 : r0 + 1));
+  XV_OBL("ebr.nesting.balanced", cb->is_in_critical_region && n_flag_false == 0 && n_do_enter == (n0 == 0 ? 1u : 0u));
+  XV_OBL("ebr.enter.calls_pre", do_enter_pre_ok);
+  /* eager: the flag is set (store, then seq_cst fence) by enter_region before do_enter_critical loads the epoch */
+  XV_OBL("ebr.enter.flag_then_fence_then_epoch", n_flag_true == ((XV_REGION_EXT == RE_eager && !f0) ? 1u : 0u)
+                                                 && (n_flag_true ? (n_sc_fence == 1 && flag_true_clk < sc_fence_clk && n_do_enter == 1 && sc_fence_clk < do_enter_clk) : 1));
+  XV_OBL("ebr.adopt.reinit", n_acquire == (with_cb ? 0u : 1u) && n_release == 0 && (with_cb ? n_ge_load == 0 && n_le_store == 0 : 1));
+  XV_OBL("ebr.conserve", lists_unchanged() && others_unchanged() && n_other_store == 0 && n_cas == 0 && global_epoch == pre.ge && !mod_unknown);
+  if (n0) { XV_OBL("ebr.nesting.balanced", n_ge_load == 0 && n_le_store == 0 && cb->local_epoch == pre.cb.local_epoch && ltd.local_epoch_idx == pre.td.local_epoch_idx); XV_CANARY("enter.nested"); }
+  else XV_CANARY("enter.outermost");
   if (!with_cb) XV_CANARY("enter.first_use");
 }
 
@@ -323,6 +381,10 @@ void h_leave_region(void) {
   td_leave_region(&ltd);
   _Bool clear = XV_REGION_EXT != RE_none && r0 == 1;
   XV_OBL("ebr.nesting.balanced", ltd.nested_critical_entries == n0 && ltd.region_entries == (XV_REGION_EXT == RE_none ? r0 : r0 - 1));
+  /* lazy: a region in which no guard_ptr was acquired never entered the critical region: there is nothing to clear (a redundant store of false and
+   * applying the abandon strategy are both harmless and both accepted) */
+  _Bool nothing_to_clear = clear && !f0;
+  if (nothing_to_clear && n_flag_false == 0) clear = 0;
   XV_OBL("ebr.nesting.balanced", cb->is_in_critical_region == (f0 && !clear) && n_flag_false == (clear ? 1u : 0u) && n_flag_true == 0 && (clear ? n0 == 0 : 1));
   if (clear) XV_OBL("ebr.leave.release_store", XV_IS_RELEASE(flag_false_order));
   _Bool moved = check_abandon(clear);
@@ -336,15 +398,15 @@ void h_leave_region(void) {
 #endif
   if (!clear) XV_CANARY("leave_region.stays");
 #if XV_REGION_EXT == 2
-  if (clear && !f0) XV_CANARY("leave_region.lazy_without_guard");
+  if (nothing_to_clear) XV_CANARY("leave_region.lazy_without_guard");
 #endif
 }
 
 /* ---------------- update_local_epoch ---------------- */
 epoch_t in_old_epoch, in_new_epoch, in_tag; unsigned in_slot;
 void h_update_local_epoch(void) {
-  havoc_world(1); XV_ASSUME(inv_td_pre()); take_snap();
-  struct tcb* cb = ltd.control_block; in_old_epoch = cb->local_epoch; unsigned rd, rn; epoch_t dd = mk_dist(&rd); XV_ASSUME(dd >= 1 && dd <= global_epoch - in_old_epoch); in_new_epoch = in_old_epoch + dd; rn = rem_add(le_rem, rd); in_tag = g_tag; set_anchor(2, in_new_epoch, rn);       /* a newer global epoch was observed */
+  want_mid = 1; havoc_world(1); XV_ASSUME(inv_td_pre()); take_snap();
+  struct tcb* cb = ltd.control_block; in_old_epoch = cb->local_epoch; unsigned rn = mid_rem; in_new_epoch = mid_epoch; XV_ASSUME(in_new_epoch > in_old_epoch); in_tag = g_tag; set_anchor(2, in_new_epoch, rn);       /* a newer global epoch was observed */
   in_slot = NE; for (unsigned s = 0; s < NE; s++) if (pre.rl[s] & g_bit) in_slot = s;
   td_update_local_epoch(&ltd, in_new_epoch);
   XV_OBL("ebr.free.three_epochs", !G_DELETED_NOW || (in_slot < NE && in_new_epoch - g_tag >= XV_GRACE));
@@ -377,10 +439,10 @@ void h_update_global_epoch(void) {
   in_slot = NE; for (unsigned s = 0; s < NE; s++) if (orphans[s].set & g_bit) in_slot = s;
   take_snap();
 #ifdef XV_INT
-  env_ge_on = 1; env_ent_on = 1; env_orph_on = 1; env_ge_cap = in_curr + 1;
+  env_ge_on = 1; env_ge_generic = 1; env_orph_on = 1; env_ge_cap = in_curr + 1;
 #endif
   epoch_t r = td_update_global_epoch(&ltd, in_curr, in_curr + 1);
-  env_ge_on = env_ent_on = env_orph_on = 0;
+  env_ge_on = env_ge_generic = env_orph_on = 0;
   XV_OBL("ebr.advance.after_scan", r == in_curr + 1 && n_cas <= 1 && !adv_bad_delta && (n_cas == 0 || cas_exp == in_curr) && n_ge_store == 0 && global_epoch >= r);
   XV_OBL("ebr.advance.sync", !adv_bad_sync && (n_cas == 0 || (n_acq_fence >= 1 && acq_fence_clk < cas_clk)));
   /* orphans are freed only by the thread whose CAS advanced the epoch, only after that CAS, and only if they are three epochs old */
@@ -488,3 +550,5 @@ void h_add_retired(void) {
   XV_OBL("ebr.enter.invariant", inv_td());
   XV_CANARY("add_retired.done");
 }
+
+static void env_orph_hook(void) { env_orph_step(); }
